@@ -166,8 +166,8 @@ CASES = [
     M('C15', 'delay_flag write dropped', (T, "        if self.duration < total_duration:\n            self.delay_flag = True\n", "        if self.duration < total_duration:\n")),
     M('C15', 'DELAYED branch dropped', (S, "                if t.delay_flag:\n                    self.schedule_status = ScheduleStatus.DELAYED\n", "                if t.delay_flag:\n")),
     # ---------------- C16
-    M('C16', '3600 -> 360 in the buffer ladder', (CFG, "            timestep_multiplier = 3600\n        elif isinstance(self.timestep_unit, int):\n            # This is a custom unit",
-                                                  "            timestep_multiplier = 360\n        elif isinstance(self.timestep_unit, int):\n            # This is a custom unit")),
+    M('C16', '3600 -> 360 in the buffer ladder', (CFG, "            timestep_multiplier = 3600\n        elif isinstance(self.timestep_unit, int):\n            # This is a custom unit\n            timestep_multiplier = self.timestep_unit\n        else:  # Seconds\n            timestep_multiplier = timestep_multiplier\n\n        hot",
+                                                  "            timestep_multiplier = 360\n        elif isinstance(self.timestep_unit, int):\n            # This is a custom unit\n            timestep_multiplier = self.timestep_unit\n        else:  # Seconds\n            timestep_multiplier = timestep_multiplier\n\n        hot")),
     W('C16', 'buffer ladder as a lookup with int fallback',
       (CFG, "        if self.timestep_unit == 'minutes':\n            timestep_multiplier = 60\n        if self.timestep_unit == 'hours':\n            timestep_multiplier = 3600\n        elif isinstance(self.timestep_unit, int):\n            # This is a custom unit\n            timestep_multiplier = self.timestep_unit\n        else:  # Seconds\n            timestep_multiplier = timestep_multiplier\n\n        hot",
        "        if isinstance(self.timestep_unit, int):\n            timestep_multiplier = self.timestep_unit\n        else:\n            timestep_multiplier = {'minutes': 60, 'hours': 3600}.get(self.timestep_unit, 1)\n\n        hot")),
